@@ -7,6 +7,7 @@ mod gen;
 mod kit;
 mod model;
 mod props;
+mod rangelab;
 mod report;
 mod rng;
 mod schnorr;
